@@ -114,6 +114,9 @@ def verlet_case(c):
 
 def mb_case(c):
     atoms = build(c)
+    if c.get("fixed"):
+        from ase.constraints import FixAtoms
+        atoms.set_constraint(FixAtoms(indices=c["fixed"]))
     ctx = HamiltonianDisplacementContext(atoms, None)
     ctx.rng = ScriptedRNG(fh(c["xi"]).tolist())
     ctx.temperature = c["T"]
@@ -163,8 +166,37 @@ def fresh_case(c):
     return {"snaps": snaps, "seen": seen, "steps": steps}
 
 
+def ctx_case(c):
+    """the Hamiltonian move called directly with each SHIPPED Hamiltonian context (displacement / deformation / exchange flavour): whatever the
+    flavour, after the call the context's reference kinetic energy is that of the momenta drawn for the last attempt"""
+    from quansino.mc import contexts as K
+    atoms = build(c)
+    atoms.set_cell([20.0, 20.0, 20.0])
+    ctx = getattr(K, c["context"])(atoms, np.random.default_rng(c["seed"]))
+    ctx.temperature = c["T"]
+    snaps = []
+
+    def dist(context):
+        maxwell_boltzmann_distribution(context, forced=c.get("forced", False))
+        snaps.append(float(context.atoms.get_kinetic_energy()).hex())
+
+    move = HamiltonianDisplacementMove(distribution=dist, operation=Verlet(dt=c["dt"], max_steps=c["n"]))
+    vetoes = list(c["vetoes"])
+    move.check_move = lambda *a, **k: not (vetoes.pop(0) if vetoes else False)
+    move.max_attempts = c.get("max_attempts", 3)
+    calls = []
+    for _ in range(c["calls"]):
+        before = len(snaps)
+        ret = bool(move(ctx))
+        calls.append({"ret": ret, "drawn": len(snaps) - before, "last_ke": float(ctx.last_kinetic_energy).hex(), "fresh": snaps[-1] if len(snaps) > before else None})
+        # the driver's part: accept
+        if ret:
+            ctx.save_state()
+    return {"calls": calls}
+
+
 def handler(c):
-    return {"verlet": verlet_case, "mb": mb_case, "fresh": fresh_case}[c["mode"]](c)
+    return {"verlet": verlet_case, "mb": mb_case, "fresh": fresh_case, "ctx": ctx_case}[c["mode"]](c)
 
 
 serve(handler)
